@@ -91,6 +91,8 @@ def markers(walk: bool = False) -> sched.MarkerSet:
                     (r"self\.sys_modules\s*=\s*len", "x_store"),
                 ],
             ),
+            # (API exploration) every line of find_type: whatever it does between looking a name up and answering
+            *([sched.Marker(XmlContext.find_type, [(r"\S", "p_ft")])] if walk else []),
             sched.Marker(
                 XmlContext.find_types,
                 [
